@@ -109,6 +109,7 @@ def check_c04(ck, tier, replay=None):
     try:
         import C04d
         C04d.check_dispatch(ck, mod, tier, parsed, found)
+        C04d.check_bonded_reset(ck, mod, tier, parsed, found)
         ck.units += ['csg/src/tools/csg_stat_imc.cc (Imc::Worker::DoNonbonded: choice of bead lists and of the neighbour-search overload)']
         ck.assumptions.append('DoNonbonded dispatch: Property::get/exists redirected to harness-held option values (no cg.nbsearch option), BeadList::Generate and NBList*::Generate are recording stubs reached through the real virtual calls (what they compute is C18/C03); bead types are one-letter names over {A,B}')
     except ImportError:
